@@ -117,6 +117,18 @@ CHECKS["C19"] = dict(
              "all Unicode blanks). Partial: round trips proved for ASCII-edged strings; mapstructure's case-insensitive matching "
              "and cross-typed template values are outside the model; the forced settings of the download handler are C12.")
 
+CHECKS["C14"] = dict(
+    text="Symbolic model of the verifier's context cache and exchange. Theorems for every user database and every history of "
+         "(time, session, message) triples over any number of sessions: a step reports user u authenticated only if u's "
+         "configured password is non-empty, the message is an authenticate message naming u that carries the response of that "
+         "password to challenge ch, and an earlier negotiate of the same session was answered with that very ch (invariant over "
+         "reachable states: stored challenges are fresh nonces issued in their own session); the exact local iff; the honest "
+         "exchange always succeeds. The real NTLMAuth.Authenticate is driven with go-ntlm's own client over exhaustive short "
+         "histories and random histories with replays, cross-session responses, forged identities and garbage.",
+    design="7/C14", technique="Coq proof (invariant over histories of a symbolic state machine) + extracted-model correspondence",
+    modelled="NTLMAuth.Authenticate and its context cache (symbolic); go-ntlm parsing and NTLMv2 are assumed; cmd/auth/auth.go (gRPC, PAM) "
+             "cannot be built here and is not exercised.")
+
 NOT_YET = {}
 
 
